@@ -8,7 +8,7 @@ import (
 	"github.com/bool64/cache"
 )
 
-const c11Rule = "stateful on a fake clock with the REAL janitor goroutine: backend x TimeToLive {finite, Unlimited} x DeleteExpiredAfter d x job interval i; " +
+const c11Rule = "stateful on a fake clock with the REAL janitor goroutine: backend x TimeToLive {finite, Unlimited} x DeleteExpiredAfter d x job interval i x an eviction limit (heap / sys / count) that is configured but never exceeded; " +
 	"3-25 ops: writes with no/short/long/negative explicit TTL, deletes, clock jumps landing 1ns before / exactly at / 1ns after janitor ticks t0+k*i or k ticks ahead; " +
 	"after every jump the model removes exactly {E!=0 and E < tick-d} per tick and Len/Walk/Read of every key are compared; " +
 	"non-trivial = some tick removed a long-expired entry while a never-expiring or recently-expired entry was present and had to survive"
@@ -43,8 +43,23 @@ func propJanitor(c *Case) {
 		jit = 0.2
 	}
 
+	// eviction limits that are configured but never exceeded must not remove anything
+	var heapLimit, sysLimit, countLimit uint64
+
+	switch c.Weighted("unreached-limit", 4, 1, 1, 1) {
+	case 1:
+		heapLimit = 1 << 62
+		c.Class("unreached-heap-limit")
+	case 2:
+		sysLimit = 1 << 62
+		c.Class("unreached-sys-limit")
+	case 3:
+		countLimit = 1000
+		c.Class("unreached-count-limit")
+	}
+
 	c.Class("backend=" + kind)
-	c.Tracef("backend=%s TimeToLive=%v DeleteExpiredAfter=%v DeleteExpiredJobInterval=%v jitter=%v", kind, cfgTTL, dea, interval, jit)
+	c.Tracef("backend=%s TimeToLive=%v DeleteExpiredAfter=%v DeleteExpiredJobInterval=%v jitter=%v limits heap=%d sys=%d count=%d", kind, cfgTTL, dea, interval, jit, heapLimit, sysLimit, countLimit)
 
 	c.Bubble(func() {
 		c.SeedJitter()
@@ -53,6 +68,7 @@ func propJanitor(c *Case) {
 		be := newCaseBackend(c, kind, cache.Config{
 			TimeToLive: cfgTTL, ExpirationJitter: jit,
 			DeleteExpiredJobInterval: interval, DeleteExpiredAfter: dea,
+			HeapInUseSoftLimit: heapLimit, SysMemSoftLimit: sysLimit, CountSoftLimit: countLimit,
 		})
 		d := newMapDriver(c, be, cfgTTL, jit)
 		synctest.Wait() // janitor armed its first timer at t0
